@@ -655,6 +655,7 @@ def run(ctx):
     walker()                                   # (re)build the native model if missing / stale
     t_run = time.time()
     budget31 = float(os.environ.get('MCX_C04_BUDGET31', '600'))
+    total_budget = float(os.environ.get('MCX_C04_BUDGET', '840'))
 
     ctx.rule('C04: (model) order of x modulo the documented polynomial computed = 2^n-1 for all 7 orders, literal C walk of the '
              'whole cycle (period, ones, visited bitmap); (fullcycle) ONE real call PRBS(n, 2^n-1, seed=1, return_seed=True) per order: '
@@ -668,6 +669,13 @@ def run(ctx):
                'compiler are trusted; the theory "order of x mod p = 2^n-1 => every non-zero start lies on the single cycle" is '
                'standard (Lidl/Niederreiter 8.28) and is confirmed literally by the C walk')
 
+    ctx.rule('this tier: ' + ('full cycle on the real generator for n in {7,9,11,15,20}; n in {23,31}: C model over the whole cycle + 64 real '
+                             'segments of 2^16 consecutive states each from checkpoints spread evenly over the cycle; every non-zero start state '
+                             'in steps for n<=15, 64 states otherwise; histories from every non-zero state for n in {7,9}, 64 states otherwise'
+                             if quick else
+                             'full cycle on the real generator for n in {7,9,11,15,20,23} in one call each, n=23 again in 16 and n=31 in 256 chained '
+                             'segments (time-budgeted, see caps_hit / lfsr.impl_segments); every non-zero start state in steps for n<=20, 4096 '
+                             'states otherwise; histories from every non-zero state for n in {7,9,11}, 256 states otherwise'))
     # ---- native walks run in the background while the library is exercised
     walks = {}
     SEGLOG = {23: 19, 31: 27}
@@ -763,8 +771,10 @@ def run(ctx):
             cases.append((n, t, i, i * K, cps[i], L, end, True))
         if jump(n, t, cps[-1], K - 1) != 1:
             raise RuntimeError('model: jump-ahead does not close the order-31 cycle')
-        WAVE = 64
+        WAVE = 32
         t31 = time.time()
+        # the whole thorough run should stay near 14 min: what the earlier parts used is taken off the order-31 budget
+        budget31 = min(budget31, max(60.0, total_budget - (t31 - t_run)))
         ones = done = nseg = 0
         all_ok = True
         for w0 in range(0, NSEG, WAVE):
